@@ -27,6 +27,10 @@ THEOREMS = [
          clause="repaired 2D cooling step keeps every node in the interval of old field, shelf and top ghost values"),
     dict(name="Snow.C07.maxprinciple2D_cool_inplace", strength="partial",
          clause="the in-place (current) 2D cooling step keeps the same interval (bound only; nothing about consistency)"),
+    dict(name="Snow.C07.maxprinciple_solid_partial", strength="partial",
+         clause="solidification stage, off-axis non-corner node: the assignment is c + theta*sum w_k (x_k - c); bounded "
+                "under the sign conditions on the conductivity differences (hypotheses, not implied by the model); "
+                "bottom corner, nonlinear capacity and T <= T_eq_l not covered"),
     dict(name="Snow.C07.r_ge_half_dr", strength="full",
          clause="r = linspace(0,R,Nr), dr = R/Nr: r_j >= dr/2 for j >= 1"),
     dict(name="Snow.C07.ice_range", strength="full",
